@@ -1417,6 +1417,8 @@ def _calculate_divisions(statistics, dataset_info, npartitions):
             ):
                 if sorted_column_info["name"] in index:
                     divisions = sorted_column_info["divisions"]
+                    if _ranges_touch(statistics, sorted_column_info["name"]):
+                        divisions = None
                     break
         if divisions and not _strictly_increasing(divisions[:-1]):
             # The same index value is stored in two files, partition boundaries
@@ -1428,6 +1430,18 @@ def _calculate_divisions(statistics, dataset_info, npartitions):
 
 def _strictly_increasing(values):
     return all(a < b for a, b in zip(values[:-1], values[1:]))
+
+
+def _ranges_touch(statistics, name):
+    # The last value of one part is also the first value of the next part
+    last_max = None
+    for part in statistics:
+        for column in part.get("columns", []):
+            if column.get("name") == name and column.get("min") is not None:
+                if last_max is not None and column["min"] <= last_max:
+                    return True
+                last_max = column.get("max")
+    return False
 
 
 #
